@@ -8,6 +8,7 @@ import (
 	"errors"
 	"fmt"
 	"go/ast"
+	"go/token"
 	"go/types"
 	"sort"
 	"strings"
@@ -258,6 +259,16 @@ func (fc *funcContext) translateFunctionBody(typ *ast.FuncType, recv *ast.Ident,
 			if isWrapped(fc.typeOf(recv)) {
 				this = "this.$val" // Unwrap receiver value.
 			}
+			switch fc.typeOf(recv).Underlying().(type) {
+			case *types.Struct, *types.Array:
+				// A value receiver is the method's own copy. Direct calls pass one,
+				// but a call through an interface, a method value or a method
+				// expression hands over the stored value itself, so a method that
+				// may change its receiver makes the copy.
+				if fc.mayModify(recv, body) {
+					this = fmt.Sprintf("$clone(%s, %s)", this, fc.typeName(fc.typeOf(recv)))
+				}
+			}
 			fc.Printf("%s = %s;", fc.translateExpr(recv), this)
 		}
 
@@ -359,4 +370,58 @@ func (fc *funcContext) translateFunctionBody(typ *ast.FuncType, recv *ast.Ident,
 	fc.pkgCtx.escapingVars = prevEV
 
 	return fmt.Sprintf("%sfunction %s(%s) {\n%s%s}", fc.funcRef.EncodeHint(), fc.funcRef, strings.Join(args, ", "), bodyOutput, fc.Indentation(1))
+}
+
+// mayModify reports whether the statements can change the variable the
+// identifier declares: whether it, one of its fields or elements is assigned to,
+// incremented, has its address taken (explicitly, by slicing an array or by a
+// call of a pointer-receiver method) or is the target of a range clause.
+func (fc *funcContext) mayModify(id *ast.Ident, body *ast.BlockStmt) bool {
+	obj := fc.pkgCtx.Defs[id]
+	if obj == nil {
+		return true
+	}
+	var rootIs func(e ast.Expr) bool
+	rootIs = func(e ast.Expr) bool {
+		switch e := e.(type) {
+		case *ast.Ident:
+			return fc.pkgCtx.Uses[e] == obj
+		case *ast.ParenExpr:
+			return rootIs(e.X)
+		case *ast.SelectorExpr:
+			return rootIs(e.X)
+		case *ast.IndexExpr:
+			return rootIs(e.X)
+		case *ast.StarExpr:
+			return false // the pointee is not part of the variable
+		}
+		return false
+	}
+	modified := false
+	ast.Inspect(body, func(n ast.Node) bool {
+		switch n := n.(type) {
+		case *ast.AssignStmt:
+			for _, lhs := range n.Lhs {
+				modified = modified || rootIs(lhs)
+			}
+		case *ast.IncDecStmt:
+			modified = modified || rootIs(n.X)
+		case *ast.RangeStmt:
+			modified = modified || (n.Key != nil && rootIs(n.Key)) || (n.Value != nil && rootIs(n.Value))
+		case *ast.UnaryExpr:
+			modified = modified || (n.Op == token.AND && rootIs(n.X))
+		case *ast.SliceExpr:
+			if _, isArray := fc.pkgCtx.TypeOf(n.X).Underlying().(*types.Array); isArray {
+				modified = modified || rootIs(n.X)
+			}
+		case *ast.SelectorExpr:
+			if s, ok := fc.pkgCtx.Selections[n]; ok && s.Kind() == types.MethodVal && rootIs(n.X) {
+				if _, ptrRecv := s.Obj().Type().(*types.Signature).Recv().Type().(*types.Pointer); ptrRecv {
+					modified = true
+				}
+			}
+		}
+		return !modified
+	})
+	return modified
 }
